@@ -4,7 +4,7 @@
 From Coq Require Import Arith Lia.
 From DC Require Import Disruptor.Pipeline.
 From Coq Require Import ZArith.
-From DC Require Disruptor.HB Disruptor.MultiPub Disruptor.PipeReplay Disruptor.MultiReplay Disruptor.Handlers Disruptor.MultiPipe.
+From DC Require Disruptor.HB Disruptor.MultiPub Disruptor.PipeReplay Disruptor.MultiReplay Disruptor.Handlers Disruptor.MultiPipe Disruptor.MultiPipeReplay.
 
 (* in order, exactly once, no gaps: whenever a handler is about to handle a sequence, it is the successor of
    the last one it returned from (it starts at 1: see C04_seq0_never_delivered) *)
@@ -100,6 +100,15 @@ Theorem C04_multi_pipeline_slot_not_reclaimed : forall N, 1 <= N -> forall H sta
   forall t lo hi, MultiPub.tp (MultiPipe.ms x) t = MultiPub.TClaimed lo hi -> hi < i + N.
 Proof. exact MultiPipe.mp_slot_not_reclaimed. Qed.
 
+(* every logged execution of a multi-producer pipeline is replayed on the product model as well (extracted
+   MultiPipeReplay.replay: writer threads drive the sequencer component, handler threads the handler component, the gating value
+   of a claim must be a snapshot of the last stage); an accepted execution is a run of MultiPipe.v *)
+Theorem C04_replayed_multi_pipeline_run_is_a_model_run : forall N, 1 <= N -> forall H stage last l r',
+  MultiPipeReplay.replay N H stage last (MultiPipeReplay.pinit) l 0 = ((-1)%Z, r') ->
+  MultiPipe.mreachable N H stage last (MultiPipeReplay.pst r').
+Proof. exact MultiPipeReplay.replay_sound. Qed.
+
+Print Assumptions C04_replayed_multi_pipeline_run_is_a_model_run.
 Print Assumptions C04_multi_pipeline_handles_only_published_in_order.
 Print Assumptions C04_multi_pipeline_slot_not_reclaimed.
 Print Assumptions C04_in_order_exactly_once.
